@@ -14,7 +14,14 @@
 //!   With `ls=1` (one line per read) every item carries `@<bytes delivered by the source>`.
 //!   `w=1|2` marks data produced by the crate's own writer (1: `write_aig` / binary
 //!   `write_ordered_aig`, 2: `ascii::Writer::write_ordered_aig`); the Lean driver then also checks
-//!   its writer model against `d`.
+//!   its writer model against `d`; the harness appends `|W:mismatch` when the real writer, given the
+//!   parsed value, does not reproduce `d` byte for byte (never for data the writer itself produced).
+//! Scale cases (`--opt scale`, gen_aiger.rs): `d` is a compact data field (`common::data_field`),
+//!   `cut=<n>` keeps the first `n` bytes of it and `post=<data field>` is appended after the cut (so a
+//!   truncation or a corrupted token can sit behind megabytes of well-formed input); with `ls=1`,
+//!   `c=<chunk>` sets the reader's chunk size and the source hands out one line per read, a line longer
+//!   than the chunk in chunk-sized pieces.  An observation longer than 64 KiB is replaced on both sides
+//!   by the digest `D:<items>:<bytes>:<fnv-1a 64 of the text>|<first item>|<last item>|<outcome>`.
 //! Oracles: C01 (same observation under every schedule), C03 (expected value `x`; write∘parse on
 //! accepted inputs), C04 (fault ⇒ io), C05 (no panic, bounded allocation), C06 (independent reading),
 //! C08 (location inside the input / on the corrupted token `t`), C09 (no line pulled beyond the
@@ -223,8 +230,9 @@ fn parse_probe_typed<L: Lit>(fmt: &str, data: &[u8]) -> (Option<Vec<String>>, us
 
 /// parse → write with the crate's writer(s) → parse again; returns (first, [(writer name, second)]).
 #[allow(clippy::type_complexity)]
-fn rewrite_typed<L: Lit>(fmt: &str, data: &[u8]) -> Option<(Vec<String>, Vec<(&'static str, Option<Vec<String>>)>)> {
+fn rewrite_typed<L: Lit>(fmt: &str, data: &[u8], w: u8) -> Option<(Vec<String>, Vec<(&'static str, Option<Vec<String>>)>, bool)> {
     let mut res = vec![];
+    let mut same = true;
     if fmt == "aag" {
         let a = ascii::Parser::<L>::from_read(data, ascii::Config::default()).and_then(|p| p.parse()).ok()?;
         let mut out: Vec<u8> = vec![];
@@ -234,9 +242,10 @@ fn rewrite_typed<L: Lit>(fmt: &str, data: &[u8]) -> Option<(Vec<String>, Vec<(&'
             use std::io::Write;
             w.flush().ok()?;
         }
+        if w == 1 { same = out == data; }
         let b = ascii::Parser::<L>::from_read(&out[..], ascii::Config::default()).and_then(|p| p.parse()).ok();
         res.push(("ascii::write_aig", b.map(|b| aig_items(&b))));
-        Some((aig_items(&a), res))
+        Some((aig_items(&a), res, same))
     } else {
         let a = binary::Parser::<L>::from_read(data, binary::Config::default()).and_then(|p| p.parse()).ok()?;
         let mut out: Vec<u8> = vec![];
@@ -246,6 +255,7 @@ fn rewrite_typed<L: Lit>(fmt: &str, data: &[u8]) -> Option<(Vec<String>, Vec<(&'
             use std::io::Write;
             w.writer.flush().ok()?;
         }
+        if w == 1 { same = out == data; }
         let b = binary::Parser::<L>::from_read(&out[..], binary::Config::default()).and_then(|p| p.parse()).ok();
         res.push(("binary::write_ordered_aig", b.map(|b| ordered_items(&b))));
         // the ordered circuit through the ASCII writer must read back as `Aig::from(ordered)`;
@@ -265,7 +275,7 @@ fn rewrite_typed<L: Lit>(fmt: &str, data: &[u8]) -> Option<(Vec<String>, Vec<(&'
                 if got == want { ordered_items(&a) } else { got }
             })));
         }
-        Some((ordered_items(&a), res))
+        Some((ordered_items(&a), res, same))
     }
 }
 
@@ -554,6 +564,11 @@ pub struct Case {
     pub expect: Option<String>,
     pub tok: Option<(usize, usize, usize)>,
     pub w: u8,
+    /// scale cases: the `d` field as written (compact segments), `cut=`, `post=` (as written), `c=`
+    pub dtext: Option<String>,
+    pub cut: Option<usize>,
+    pub post: Option<String>,
+    pub chunk: Option<usize>,
 }
 
 impl Case {
@@ -565,26 +580,113 @@ impl Case {
             mode: f.get("mode").into(),
             k: match f.get("k") { "-" => None, s => Some(s.parse().unwrap()) },
             ls: f.opt("ls") == Some("1"),
-            data: data_field(f.get("d")),
+            data: {
+                let mut d = data_field(f.get("d"));
+                if let Some(n) = f.opt("cut") { d.truncate(n.parse().unwrap()); }
+                if let Some(p) = f.opt("post") { d.extend(data_field(p)); }
+                d
+            },
             expect: f.opt("x").map(|s| s.to_string()),
             tok: f.opt("t").map(|s| {
                 let v: Vec<usize> = s.split(':').map(|x| x.parse().unwrap()).collect();
                 (v[0], v[1], v[2])
             }),
             w: f.opt("w").map(|s| s.parse().unwrap()).unwrap_or(0),
+            dtext: None,
+            cut: f.opt("cut").map(|s| s.parse().unwrap()),
+            post: f.opt("post").map(|s| s.to_string()),
+            chunk: f.opt("c").map(|s| s.parse().unwrap()),
         }
     }
     pub fn line(&self) -> String {
         format!(
-            "aiger fmt={} ty={} mode={} k={} ls={} d={}{}{}{}",
+            "aiger fmt={} ty={} mode={} k={} ls={} d={}{}{}{}{}{}{}",
             self.fmt, self.ty, self.mode,
             match self.k { Some(k) => k.to_string(), None => "-".into() },
-            self.ls as u8, hex(&self.data),
+            self.ls as u8,
+            match &self.dtext { Some(t) => t.clone(), None => hex(&self.data) },
+            match self.cut { Some(n) => format!(" cut={}", n), None => String::new() },
+            match &self.post { Some(p) => format!(" post={}", p), None => String::new() },
+            match self.chunk { Some(n) => format!(" c={}", n), None => String::new() },
             match &self.expect { Some(x) => format!(" x={}", x), None => String::new() },
             match &self.tok { Some((l, c, n)) => format!(" t={}:{}:{}", l, c, n), None => String::new() },
             if self.w != 0 { format!(" w={}", self.w) } else { String::new() },
         )
     }
+}
+
+/// Inputs longer than this get the reduced schedule set of `big_schedules`.
+const BIG: usize = 1 << 16;
+
+/// Observations longer than 64 KiB are replaced by a digest (same formula in `Driver/EngAiger.lean`).
+pub fn digest(text: String) -> String {
+    if text.len() <= 65536 {
+        return text;
+    }
+    let mut h: u64 = 0xcbf29ce484222325;
+    for b in text.as_bytes() {
+        h ^= *b as u64;
+        h = h.wrapping_mul(0x100000001b3);
+    }
+    let parts: Vec<&str> = text.split('|').collect();
+    let n = parts.len() - 1;
+    let item = |i: usize| if n == 0 { "-".to_string() } else { clip(parts[i]) };
+    format!("D:{}:{}:{:016x}|{}|{}|{}", n, text.len(), h, item(0), item(n.saturating_sub(1)), parts[n])
+}
+
+/// At most 200 bytes of an item or observation, for messages and digests.
+pub fn clip(s: &str) -> String {
+    if s.len() <= 200 { s.to_string() } else { format!("{}..({} bytes)", &s[..200], s.len()) }
+}
+
+/// One line per read; a line longer than `chunk` (the size of every read request the reader
+/// makes) in pieces of `chunk` bytes.
+pub fn piece_schedule(data: &[u8], chunk: usize) -> Vec<Ev> {
+    let mut ev = vec![];
+    let mut n = 0;
+    for b in data {
+        n += 1;
+        if *b == b'\n' || n == chunk {
+            ev.push(Ev::Give(n));
+            n = 0;
+        }
+    }
+    if n > 0 {
+        ev.push(Ev::Give(n));
+    }
+    ev
+}
+
+/// The schedules a big input is parsed under: one read request per chunk with the default chunk
+/// size, byte by byte, a random small-chunk schedule with interruptions, and a chunk size from the
+/// scale sizes with random short reads.
+pub fn big_schedules(rng: &mut Rng, len: usize) -> Vec<(String, Vec<Ev>, usize)> {
+    let mut v: Vec<(String, Vec<Ev>, usize)> = vec![
+        ("one-shot".into(), vec![], 16384),
+        ("1-byte".into(), vec![], 1),
+    ];
+    let chunk = *rng.pick(&[2usize, 3, 7, 8, 9, 16, 4096]);
+    let mut s = vec![];
+    let mut given = 0;
+    while given < len + 2 {
+        if rng.chance(1, 6) { s.push(Ev::Intr); }
+        let n = rng.range(1, 12) as usize;
+        given += n.min(chunk);
+        s.push(Ev::Give(n));
+    }
+    v.push((format!("random-c{}", chunk), s, chunk));
+    let sizes = scale_sizes(10, 21);
+    let chunk = *rng.pick(&sizes);
+    let mut s = vec![];
+    let mut given = 0;
+    while given < len + 2 {
+        if rng.chance(1, 8) { s.push(Ev::Intr); }
+        let n = match rng.below(4) { 0 => chunk, 1 => rng.range(1, 64) as usize, _ => rng.range(1, chunk as u64) as usize };
+        given += n;
+        s.push(Ev::Give(n));
+    }
+    v.push((format!("scale-c{}", chunk), s, chunk));
+    v
 }
 
 fn raw_line_end(data: &[u8], p: usize) -> usize {
@@ -602,36 +704,47 @@ pub fn run_case(line: &str) -> (String, Vec<String>) {
     let mk = |sched: Vec<Ev>| SchedSource::new(delivered.clone(), fault, sched);
 
     if c.ls {
-        // C09: one line per read
-        let obs = run_parser(&c.fmt, &c.ty, &c.mode, mk(line_schedule(&delivered)), 16384);
+        // C09: one line per read (a line longer than the chunk in chunk-sized pieces)
+        let chunk = c.chunk.unwrap_or(16384);
+        let sched = if c.chunk.is_some() { piece_schedule(&delivered, chunk) } else { line_schedule(&delivered) };
+        let obs = run_parser(&c.fmt, &c.ty, &c.mode, mk(sched), chunk);
         if obs.fin == "E:panic" {
             fails.push("C05:parser panicked".into());
         }
         if !fault && c.mode == "stream" {
             if let Ok(rd) = reference_read(&c.fmt, &c.ty, &delivered) {
+                // `lim` is the end of the line that contains byte `from`; it stays valid for every
+                // later byte before `lim` (one scan per line, not per item)
+                let (mut from, mut lim) = (0usize, 0usize);
+                let mut reported = 0;
                 for (i, (item, d)) in obs.items.iter().enumerate() {
                     if item.starts_with("K:") { continue; }
                     if let Some((_, end)) = rd.items.get(i) {
-                        let lim = raw_line_end(&delivered, end.saturating_sub(1));
-                        if *d > lim {
-                            fails.push(format!("C09:item {} ({}) returned after {} bytes were pulled, the line that completes it ends at {}", i, item, d, lim));
+                        let p = end.saturating_sub(1);
+                        if !(lim > 0 && p >= from && p < lim) {
+                            from = p;
+                            lim = raw_line_end(&delivered, p);
+                        }
+                        if *d > lim && reported < 8 {
+                            reported += 1;
+                            fails.push(format!("C09:item {} ({}) returned after {} bytes were pulled, the line that completes it ends at {}", i, clip(item), d, lim));
                         }
                     }
                 }
             }
         }
-        return (obs.text(true), fails);
+        return (digest(obs.text(true)), fails);
     }
 
     // ---- C01: every schedule gives the same observation
     let mut rng = Rng::new(delivered.len() as u64 * 31 + delivered.first().copied().unwrap_or(0) as u64);
-    let scheds = schedules(&mut rng, delivered.len());
+    let scheds = if delivered.len() > BIG { big_schedules(&mut rng, delivered.len()) } else { schedules(&mut rng, delivered.len()) };
     let base = run_parser(&c.fmt, &c.ty, &c.mode, mk(scheds[0].1.clone()), scheds[0].2);
     let base_text = base.text(false);
     for (name, ev, chunk) in scheds.iter().skip(1) {
         let o = run_parser(&c.fmt, &c.ty, &c.mode, mk(ev.clone()), *chunk).text(false);
         if o != base_text {
-            fails.push(format!("C01:result depends on the read schedule: one-shot={} {}={}", base_text, name, o));
+            fails.push(format!("C01:result depends on the read schedule: one-shot={} {}={}", clip(&base_text), name, clip(&o)));
             // the line/column oracle of the text formats applies to ASCII AIGER only
             fails.extend(crate::eng_cnf::variant_oracles(&delivered, fault, name, &o, c.expect.as_ref(), c.tok, c.fmt == "aag"));
             break;
@@ -660,9 +773,9 @@ pub fn run_case(line: &str) -> (String, Vec<String>) {
         if base.fin == "END" {
             fails.push("C04:source failed but the input was reported as completely parsed".into());
         } else if base.fin.starts_with("E:syn") && !(base.fin == free.fin && prefix_ok && free.items.len() == n) {
-            fails.push(format!("C04:syntax error {} reported for data that ends where the source failed (fault-free run: {})", base.fin, free.text(false)));
+            fails.push(format!("C04:syntax error {} reported for data that ends where the source failed (fault-free run: {})", base.fin, clip(&free.text(false))));
         } else if !prefix_ok {
-            fails.push(format!("C04:item handed out before the I/O error differs from the fault-free run: {} vs {}", base_text, free.text(false)));
+            fails.push(format!("C04:item handed out before the I/O error differs from the fault-free run: {} vs {}", clip(&base_text), clip(&free.text(false))));
         }
     }
     // ---- C08: error location designates a position inside the input
@@ -687,10 +800,11 @@ pub fn run_case(line: &str) -> (String, Vec<String>) {
     // ---- C03: the value that was written
     if let Some(x) = &c.expect {
         if !fault && &base_text != x {
-            fails.push(format!("C03:parsed {} but the written value is {}", base_text, x));
+            fails.push(format!("C03:parsed {} but the written value is {}", clip(&base_text), clip(x)));
         }
     }
     // ---- C06: independent reading of accepted inputs
+    let mut wmis = false;
     if !fault && base.fin == "END" {
         match reference_read(&c.fmt, &c.ty, &delivered) {
             Err(why) => {
@@ -706,24 +820,40 @@ pub fn run_case(line: &str) -> (String, Vec<String>) {
                     _ => got == want,
                 };
                 if !cmp_ok {
-                    fails.push(format!("C06:returned items {:?} differ from the text {:?}", got, want));
-                }
-            }
-        }
-        // ---- C03 converse: parse(write(parse(t))) = parse(t)
-        match catch(|| by_type!(c.ty.as_str(), rewrite_typed, &c.fmt, &delivered)) {
-            None => fails.push("C03:writing the parsed value back panicked".into()),
-            Some(None) => fails.push("C03:parse() rejects what the streaming API accepted".into()),
-            Some(Some((first, again))) => {
-                for (w, second) in again {
-                    if second.as_ref() != Some(&first) {
-                        fails.push(format!("C03:parse({}(parse(t))) = {:?} but parse(t) = {:?}", w, second, first));
+                    if got.len() + want.len() > 64 {
+                        // scale: the counts, and the first index at which the two lists differ
+                        let at = got.iter().zip(want.iter()).position(|(g, w)| g != w).unwrap_or(got.len().min(want.len()));
+                        fails.push(format!("C06:returned {} items but the text has {}; first difference at item {}: returned {:?}, text {:?}",
+                            got.len(), want.len(), at, got.get(at).map(|s| clip(s)), want.get(at).map(|s| clip(s))));
+                    } else {
+                        fails.push(format!("C06:returned items {:?} differ from the text {:?}", got, want));
                     }
                 }
             }
         }
+        // ---- C03 converse: parse(write(parse(t))) = parse(t)
+        match catch(|| by_type!(c.ty.as_str(), rewrite_typed, &c.fmt, &delivered, c.w)) {
+            None => fails.push("C03:writing the parsed value back panicked".into()),
+            Some(None) => fails.push("C03:parse() rejects what the streaming API accepted".into()),
+            Some(Some((first, again, same_bytes))) => {
+                for (w, second) in again {
+                    if second.as_ref() != Some(&first) {
+                        if first.len() > 64 {
+                            let n2 = second.as_ref().map(|v| v.len());
+                            let at = second.as_ref().and_then(|v| v.iter().zip(first.iter()).position(|(a, b)| a != b));
+                            fails.push(format!("C03:parse({}(parse(t))) has {:?} items but parse(t) has {}; first difference at item {:?}", w, n2, first.len(), at));
+                        } else {
+                            fails.push(format!("C03:parse({}(parse(t))) = {:?} but parse(t) = {:?}", w, second, first));
+                        }
+                    }
+                }
+                wmis = !same_bytes;
+            }
+        }
     }
-    (base_text, fails)
+    let mut text = digest(base_text);
+    if wmis { text.push_str("|W:mismatch"); }
+    (text, fails)
 }
 
 // ------------------------------------------------------------------ building values for the generators
